@@ -317,7 +317,7 @@ Lemma bound_refuted_before_fix :
 Proof. exists refute_shape, 2, 0%nat. vm_compute. repeat split. Qed.
 
 Lemma refute_values : estimate_before_fix refute_shape 2 0 = 2048
-                      /\ peak (read_trace refute_shape ++ convolve_trace refute_shape 2 0) = 5092
+                      /\ peak (read_trace refute_shape ++ convolve_trace refute_shape 2 0) = 4992
                       /\ estimate refute_shape 2 0 = 9216.
 Proof. vm_compute. repeat split. Qed.
 
@@ -340,9 +340,11 @@ Proof.
   vm_compute. repeat split.
 Qed.
 
-(* the destructor under-reports the size of every value block whose FITS quotes were stripped on reading *)
-Lemma destroy_miscounts_quoted_values :
-  exists sh, card_limits sh = true /\ valid_conv sh 1 0 = true /\ live (life_trace sh 1 0) = 2.
+(* before the fix "read_fits requests exactly the stored length of an auxiliary value" the destructor under-reported
+   the size of every value block whose FITS quotes were stripped on reading (2 bytes here); now the block is requested
+   with the stored length and a quoted value is returned byte for byte *)
+Lemma destroy_returns_quoted_values :
+  exists sh, card_limits sh = true /\ valid_conv sh 1 0 = true /\ no_quotes sh = false /\ live (life_trace sh 1 0) = 0.
 Proof.
   exists {| dims := [ {| naxis := 5; nknots := 8; order := 2 |} ]; auxs := [ {| keylen := 3; vallen := 10; strip := 2 |} ]; ext_naux := 4 |}.
   vm_compute. repeat split.
